@@ -88,6 +88,26 @@ std::vector<MgrInst> build_managers(const std::vector<int>& kinds, const std::ve
                 t->realloc = (k & 4) ? urisim_cb_realloc : nullptr; t->reallocarray = (k & 8) ? urisim_cb_reallocarray : nullptr;
                 t->free = (k & 16) ? urisim_cb_free : nullptr; t->userData = m.rec;
                 m.table = t;
+                // the two manager-level entry points must reject it too, before using it
+                {
+                    set_perm(t, sizeof *t, perm(P_R, RS_CONST_ARG));
+                    volatile int rc = 0; bool ok = false;
+                    call_begin(-1, -1, m.id, FaultPlan());
+                    LIBCALL_RUN({ rc = uriTestMemoryManager(t); }, ok);
+                    int ev = g.cur->req_count + g.cur->free_count;
+                    call_end();
+                    if (ok && (rc != URI_ERROR_MEMORY_MANAGER_INCOMPLETE || ev)) violate(V_ALLOC_BEFORE_REJECT, "uriTestMemoryManager on an incomplete manager returned " + std::to_string(rc) + " after " + std::to_string(ev) + " allocator call(s)", false);
+                    if (!(k & 1) || !(k & 16)) {
+                        UriMemoryManager* c = (UriMemoryManager*)arena_alloc(A_OBJ, sizeof(UriMemoryManager), 16, P_RW);
+                        arena_alloc(A_OBJ, 32, 1, perm(0, RS_REDZONE));
+                        memset(c, 0, sizeof *c);
+                        call_begin(-1, -1, m.id, FaultPlan());
+                        LIBCALL_RUN({ rc = uriCompleteMemoryManager(c, t); }, ok);
+                        ev = g.cur->req_count + g.cur->free_count;
+                        call_end();
+                        if (ok && (rc != URI_ERROR_MEMORY_MANAGER_INCOMPLETE || ev)) violate(V_ALLOC_BEFORE_REJECT, "uriCompleteMemoryManager over a backend without malloc or free returned " + std::to_string(rc), false);
+                    }
+                }
             } else {  // MK_COMPLETED: backend offers malloc and free only
                 t->malloc = urisim_cb_malloc; t->free = urisim_cb_free; t->userData = m.rec;
                 t->calloc = urisim_trap_calloc; t->realloc = urisim_trap_realloc; t->reallocarray = urisim_trap_reallocarray;
